@@ -70,6 +70,23 @@ var extensionDirectives = []string{"ext", "foo=bar", `x-y="q,w"`, "community=\"U
 
 // respellCC turns the comma-joined canonical value(s) into one or more field lines
 func respellCC(g *G, values []string) []string {
+	// a field line that is not well-formed (a quoted-string that never ends) has no other spelling
+	for _, v := range values {
+		inq, esc := false, false
+		for _, c := range v {
+			switch {
+			case esc:
+				esc = false
+			case c == '\\':
+				esc = true
+			case c == '"':
+				inq = !inq
+			}
+		}
+		if inq || esc {
+			return values
+		}
+	}
 	var ds []string
 	for _, v := range values {
 		// split at commas outside quotes
